@@ -112,7 +112,7 @@ def violates(F, kind, param):
 # case generation
 # ----------------------------------------------------------------------------
 @st.composite
-def _run_part(draw, nd_range=(3, 4), ranks=(1, 3)):
+def _run_part(draw, nd_range=(3, 4), ranks=(1, 3), allow_warm=True):
     order = draw(st.integers(nd_range[0], nd_range[1]))
     shape = draw(gen.shapes(order, order, 2, 5 if order == 3 else 3))
     x = draw(X.data(shape=shape, kinds=DATA))
@@ -127,6 +127,19 @@ def _run_part(draw, nd_range=(3, 4), ranks=(1, 3)):
         c["uinit"] = draw(gen.cp_factors(shape, rank, kinds=("normal", "int"), weights=("none", "ones", "pos")))
         # the last mode may be named: the library warns and updates it anyway, so it is inspected
         c["fixed"] = draw(st.one_of(st.none(), st.lists(st.integers(0, nd - 1), unique=True, max_size=nd - 1).map(sorted)))
+        # warm-start classes: the user init already FITS the data (to rounding) but is signed, i.e. infeasible for the
+        # hard constraints; with budget >= 1 every non-fixed constrained mode must still come back feasible.
+        #   "exact":   data := dense reconstruction of the user init
+        #   "parafac": data of exact CP rank `rank`, init := result of a short unconstrained parafac run on it
+        c["warm"] = draw(st.sampled_from([None, None, "exact", "exact", "parafac"])) if allow_warm else None
+        if c["warm"] == "exact":
+            c["x"] = {"s": list(shape), "from_init": True, "kind": "from_init"}
+            c["tol"] = draw(st.sampled_from([1e-8, 1e-4, 1e-1, 0]))
+        elif c["warm"] == "parafac":
+            c["x"] = {"s": list(shape), "lowrank": rank, "seed": draw(gen.seeds), "nonneg": False, "kind": "lowrank"}
+            c["warm_iters"] = draw(st.sampled_from([5, 20, 60]))
+            c["tol"] = draw(st.sampled_from([1e-8, 1e-4, 1e-1, 0]))
+            c.pop("uinit")
     return c
 
 
@@ -162,7 +175,7 @@ def _single_case(draw, kind, form, ranks=None):
     if kind == "normalize":
         # tiny data scale relative to the dtype: max-normalisation must still bring max|factor| to exactly 1
         # (float64 entries ~1e-20 << eps(float64), float32 entries ~1e-9 << eps(float32))
-        c["tiny"] = draw(st.sampled_from([None, None, "f64", "f64", "f32"]))
+        c["tiny"] = draw(st.sampled_from([None, None, "f64", "f64", "f32"])) if not c.get("warm") else None
         if c["tiny"]:
             c["x"]["xscale"] = 1e-20 if c["tiny"] == "f64" else 1e-9
             if c["tiny"] == "f32":
@@ -205,7 +218,21 @@ def _kwargs(c, nd):
     return kw
 
 
+def _case_data(c):
+    """data tensor of a case (the "exact" warm-start class reconstructs it from the user init with vlib.ref)"""
+    if c["x"].get("from_init"):
+        from vlib import ref
+        w, f = gen.dec_cp(c["uinit"])
+        return np.ascontiguousarray(ref.cp_dense(w, f), dtype=float)
+    return X.dec_data(c["x"])
+
+
 def _init(c):
+    if c["init"] == "user" and c.get("warm") == "parafac":
+        # input preparation (not an expected value): a converged / nearly converged unconstrained fit reused as warm start
+        x = X.dec_data(c["x"])
+        w, f = parafac(x, c["rank"], n_iter_max=c["warm_iters"], init="svd", tol=1e-12, random_state=c["seed"])
+        return (np.array(w), [np.array(a) for a in f])
     if c["init"] == "user":
         w, f = gen.dec_cp(c["uinit"])
         if c.get("tiny") == "f32":
@@ -228,7 +255,7 @@ def _call(c, x, kw):
 
 
 def o_feasible(c):
-    x = X.dec_data(c["x"])
+    x = _case_data(c)
     if not np.any(x):
         discard("zero tensor")
     nd = x.ndim
@@ -263,7 +290,7 @@ def o_feasible(c):
     except Exception:  # noqa
         pass
     labels = [f"order={nd}", f"data={c['x']['kind']}", f"init={c['init']}", f"n_iter={c['n_iter']}", f"rank={c['rank']}",
-              f"active={active}", f"class={c['via_class']}", f"inspected={min(inspected, 4)}", f"tiny={c.get('tiny')}"]
+              f"active={active}", f"class={c['via_class']}", f"inspected={min(inspected, 4)}", f"tiny={c.get('tiny')}", f"warm={c.get('warm')}"]
     for sp in c["specs"]:
         labels.append(f"kind={sp['kind']}/{sp['form']}{'/short' if sp.get('short') else ''}")
     return {"nontrivial": inspected > 0 and active != "False", "labels": labels}
@@ -272,7 +299,7 @@ def o_feasible(c):
 # ---- double constraints must be rejected -------------------------------------------------
 @st.composite
 def _reject_case(draw, forms):
-    c = draw(_run_part())
+    c = draw(_run_part(allow_warm=False))
     c["init"] = draw(st.sampled_from(["svd", "random"]))
     c.pop("uinit", None)
     c.pop("fixed", None)
